@@ -246,11 +246,13 @@ type typeDef struct {
 	ordered bool     // relation fields are named so that their name order is the order of refs
 }
 
-func (t typeDef) sdl(primary map[string]bool) string {
-	var sb strings.Builder
-	sb.WriteString("type " + t.name + " {\n")
+func (t typeDef) sdl(primary map[string]bool) string { return t.sdlShuffled(primary, nil) }
+
+// sdlShuffled writes the fields in a random order when given a generator
+func (t typeDef) sdlShuffled(primary map[string]bool, shuffle *vc.Rng) string {
+	var lines []string
 	for _, s := range t.scalar {
-		sb.WriteString("\t" + s + "\n")
+		lines = append(lines, "\t"+s+"\n")
 	}
 	for k, ref := range t.refs {
 		fname := strings.ToLower(ref) + "Of" + t.name
@@ -259,15 +261,30 @@ func (t typeDef) sdl(primary map[string]bool) string {
 		}
 		key := t.name + ">" + ref
 		if ref == t.name {
-			sb.WriteString("\t" + fname + ": " + ref + "\n")
+			lines = append(lines, "\t"+fname+": "+ref+"\n")
 		} else if primary[key] {
-			sb.WriteString("\t" + fname + ": " + ref + " @primary\n")
+			lines = append(lines, "\t"+fname+": "+ref+" @primary\n")
 		} else {
-			sb.WriteString("\t" + fname + ": " + ref + "\n")
+			lines = append(lines, "\t"+fname+": "+ref+"\n")
 		}
 	}
-	sb.WriteString("}\n")
-	return sb.String()
+	return render(t.name, lines, shuffle)
+}
+
+func render(name string, lines []string, shuffle *vc.Rng) string {
+	if shuffle != nil {
+		for a := len(lines) - 1; a > 0; a-- {
+			b := shuffle.Intn(a + 1)
+			lines[a], lines[b] = lines[b], lines[a]
+		}
+	}
+	var out strings.Builder
+	out.WriteString("type " + name + " {\n")
+	for _, l := range lines {
+		out.WriteString(l)
+	}
+	out.WriteString("}\n")
+	return out.String()
 }
 
 // ids of every type after adding the given batches of SDL to a fresh node
@@ -299,6 +316,10 @@ func genGraph(r *vc.Rng) []typeDef {
 	var ts []typeDef
 	for i, nm := range names {
 		t := typeDef{name: nm, scalar: []string{"name: String", fmt.Sprintf("v%d: Int", i)}}
+		if r.Chance(1, 2) {
+			// names that differ only in letter case (a canonical field order has to tell them apart)
+			t.scalar = append(t.scalar, [][]string{{"userId: Int", "userID: Int"}, {"penName: String", "penname: String"}, {"Tag: String", "tag: String", "TAG: String"}}[r.Intn(3)]...)
+		}
 		ts = append(ts, t)
 	}
 	// relations: one-to-one pairs (each unordered pair at most once; both sides get a field)
@@ -343,6 +364,73 @@ func genDigraph(r *vc.Rng, caseID int) []typeDef {
 		}
 	}
 	return ts
+}
+
+// dependencyBatches: the strongly connected components of the reference graph in an order in which every type comes
+// after the types it refers to
+func dependencyBatches(ts []typeDef) [][]int {
+	idx := map[string]int{}
+	for i, t := range ts {
+		idx[t.name] = i
+	}
+	n := len(ts)
+	reach := make([][]bool, n)
+	for i := range reach {
+		reach[i] = make([]bool, n)
+		for _, ref := range ts[i].refs {
+			reach[i][idx[ref]] = true
+		}
+	}
+	for k := 0; k < n; k++ {
+		for i := 0; i < n; i++ {
+			for j := 0; j < n; j++ {
+				if reach[i][k] && reach[k][j] {
+					reach[i][j] = true
+				}
+			}
+		}
+	}
+	comp := make([]int, n)
+	for i := range comp {
+		comp[i] = -1
+	}
+	var comps [][]int
+	for i := 0; i < n; i++ {
+		if comp[i] >= 0 {
+			continue
+		}
+		c := len(comps)
+		comps = append(comps, nil)
+		for j := i; j < n; j++ {
+			if j == i || (reach[i][j] && reach[j][i]) {
+				comp[j] = c
+				comps[c] = append(comps[c], j)
+			}
+		}
+	}
+	// emit a component once all components it refers to are out
+	done := make([]bool, len(comps))
+	var out [][]int
+	for len(out) < len(comps) {
+		for c := range comps {
+			if done[c] {
+				continue
+			}
+			ready := true
+			for _, i := range comps[c] {
+				for j := 0; j < n; j++ {
+					if reach[i][j] && comp[j] != c && !done[comp[j]] {
+						ready = false
+					}
+				}
+			}
+			if ready {
+				done[c] = true
+				out = append(out, comps[c])
+			}
+		}
+	}
+	return out
 }
 
 func schemaCase(ctx context.Context, out *vc.Out, r *vc.Rng, caseID int, tier string) {
@@ -413,6 +501,28 @@ func schemaCase(ctx context.Context, out *vc.Out, r *vc.Rng, caseID int, tier st
 		}
 		got, err := addAndCollect(ctx, []string{sdlOf(perm)})
 		check(fmt.Sprintf("type order %v", perm), got, err)
+	}
+	// permutations of the field order inside every type
+	for i := 0; i < reps; i++ {
+		var sb strings.Builder
+		for _, t := range ts {
+			sb.WriteString(t.sdlShuffled(primary, r))
+		}
+		got, err := addAndCollect(ctx, []string{sb.String()})
+		check("permuted field order inside the types", got, err)
+	}
+	// one-sided relations: a type can be added after the types it refers to, in a call of its own (types of a
+	// reference cycle stay in one call)
+	if oneSided {
+		if batches := dependencyBatches(ts); len(batches) > 1 {
+			var sdls []string
+			for _, b := range batches {
+				sdls = append(sdls, sdlOf(b))
+			}
+			got, err := addAndCollect(ctx, sdls)
+			check(fmt.Sprintf("%d separate AddSchema calls (referenced types first)", len(batches)), got, err)
+			out.Count("dependency-ordered-partition")
+		}
 	}
 	// partitions: connected components can be added in separate calls
 	comp := map[string]int{}
